@@ -237,8 +237,14 @@ def _gen_build(r, g, class_default):
             elif fam == 'inclist':
                 f1, f2 = g.fname('inc'), g.fname('inc')
                 g.files[f1] = '{c: ' + _call(g, t, 'call') + '}\n'
+                n2 = f2
+                if r.random() < 0.4:
+                    # the individually marked name is written with '~' (found below HOME)
+                    f2 = '/home/u' + f2.replace('/', '_t_', 1).replace('/', '_')
+                    f2 = '/home/u/' + f2[len('/home/u'):].lstrip('_')
+                    n2 = '~/' + f2[len('/home/u/'):]
                 g.files[f2] = '{c2: ' + _call(g, 'U', 'call') + '}\n'
-                v = f'!include [{f1}, !unsafe {f2}]'
+                v = f'!include [{f1}, !unsafe {n2}]'
             elif fam == 'fstr':
                 c = r.randrange(4)
                 if c == 0:
